@@ -523,7 +523,9 @@ def keyval_typ2str(var, val):
     keyval_str2typ: the opposite
     """
     varout = var.strip()
-    if isinstance(val, list):
+    if (isinstance(val, (list, tuple))
+            or (isinstance(val, np.ndarray) and val.ndim)):
+        # lists, tuples, and arrays are written in list notation
         data = ", ".join([keyval_typ2str(var, it)[1] for it in val])
         valout = "["+data+"]"
     elif isinstance(val, float):
